@@ -1101,7 +1101,7 @@ func (e *Exec) rangeIter(x Value, t types.Type) Value {
 	case *MapObj:
 		it := &Iter{kind: 1, m: x}
 		if x != nil {
-			it.order = e.mapOrder(len(x.keys))
+			it.order = e.mapOrder(len(x.keys), x)
 		}
 		return it
 	case Str:
@@ -1113,12 +1113,12 @@ func (e *Exec) rangeIter(x Value, t types.Type) Value {
 // mapOrder returns the iteration order of a map with n entries: insertion
 // order unless the path is in symbolic-map-order mode (C02), in which case the
 // permutation is an environment choice.
-func (e *Exec) mapOrder(n int) []int {
+func (e *Exec) mapOrder(n int, m *MapObj) []int {
 	order := make([]int, n)
 	for i := range order {
 		order[i] = i
 	}
-	if e.path == nil || !e.path.symMapOrder || n < 2 {
+	if e.path == nil || !(e.path.symMapOrder || (m != nil && m.symOrder)) || n < 2 {
 		return order
 	}
 	if n > 4 {
